@@ -2,6 +2,8 @@
 """Confirm a seeded change in a scratch worktree: applies, builds, demo fails with it, the existing suite
 still passes with it, demo passes without it.  usage: seed_confirm.py <worktree> <seed-dir> [--no-suite]"""
 import sys, os, json, subprocess, shutil, re, glob, time
+# every seeded variant of /repo compiles anew: keep the shared Go build cache from filling the disk
+subprocess.run("find /root/.cache/go-build -type f -mmin +180 -delete 2>/dev/null", shell=True)
 wt, sd = sys.argv[1], sys.argv[2]
 no_suite = '--no-suite' in sys.argv
 env = dict(os.environ, GOFLAGS='-mod=mod', GOPROXY='off', GOSUMDB='off', GOTOOLCHAIN='local')
